@@ -3,6 +3,8 @@ import ParryModel.C19.Model
 import ParryModel.C19.Theorems2
 import ParryModel.C19.Theorems3
 import ParryModel.C19.Theorems4
+import ParryModel.C19.Theorems5
+import ParryModel.C19.Theorems6
 /-!
 # C19 theorems: `scaled` is exact — the scaled shape contains `s∘p` exactly when the original contains `p`,
 for every non-degenerate scale vector of any sign.
